@@ -14,6 +14,8 @@
 (*      comment / blank line placements x full / trimmed rows; field group layout corner lines                     *)
 (*   K  identity: two or three definition rows over (type, circuit, name, QQ, ZZ, ID) incl. case variants          *)
 (*   X  defaults + templates + ZZ lists together                                                                   *)
+(* (every family takes the tier as parameter, also where it does not depend on it: TLC evaluates constant definitions   *)
+(* without parameters eagerly at start-up, which a replay of a single file should not pay for)                          *)
 (* The token definitions (x_...) are character code sequences generated from the texts in the comments.            *)
 EXTENDS ConfigLoad, TLC
 
@@ -208,7 +210,7 @@ AFields == { <<[groups |-> <<>>], [groups |-> <<>>]>>, <<[groups |-> <<>>], [gro
              <<[groups |-> <<>>], [groups |-> <<G(x_f, E, x_UCH, x_vxy, E, E), G(x_f, E, x_UCH, x_cc1, E, E)>>]>>,
              <<[groups |-> <<>>], [groups |-> <<G(x_f, E, E, x_p10, E, E)>>]>>, <<[groups |-> <<>>], [groups |-> <<G(x_f, E, x_UCH, x_pbad, E, E)>>]>> }
 Aspects == <<AType, ACircuit, AName, AComment, AQq, AZz, AId, AFields>>
-FamilyA == UNION { { <<NoTpl, MsgFile(HComment, <<Upd(Upd(BaseD, a[1]), b[1]), Upd(Upd(BaseR, a[2]), b[2])>>)>> : a \in Aspects[i], b \in Aspects[j] }
+FamilyA(th) == UNION { { <<NoTpl, MsgFile(HComment, <<Upd(Upd(BaseD, a[1]), b[1]), Upd(Upd(BaseR, a[2]), b[2])>>)>> : a \in Aspects[i], b \in Aspects[j] }
                    : i \in 1..Len(Aspects), j \in 1..Len(Aspects) }
 (* (i = j gives single aspect variations and, for different a and b, the later update wins: still well-formed rows) *)
 (* thorough: three aspects at once over core combinations, and a second default row of the same or another type     *)
@@ -225,7 +227,7 @@ Core == << { <<[type |-> x_r], [type |-> x_r3]>>, <<[type |-> x_wi], [type |-> x
              <<[groups |-> <<G(x_x, x_m, x_UCH, E, E, E), G(E, E, x_UIN, E, E, E)>>], [groups |-> <<>>]>> } >>
 SecondDefaults == { Row(TRUE, x_r, E, E, E, E, E, E, E, E, <<>>), Row(TRUE, x_r, x_d, E, E, x_m, E, E, x_b510, E, <<>>),
                     Row(TRUE, x_w, x_d, E, E, E, E, x_h09, x_b510, x_h0e, <<G(x_x, E, x_UIN, E, E, E)>>) }
-FamilyA3 ==
+FamilyA3(th) ==
   UNION { { <<NoTpl, MsgFile(HComment, <<Upd(Upd(Upd(BaseD, a[1]), b[1]), c[1]), Upd(Upd(Upd(BaseR, a[2]), b[2]), c[2])>>)>> :
               a \in Core[i], b \in Core[j], c \in Core[k] } : i, j, k \in 1..Len(Core) }
   \cup UNION { { <<NoTpl, MsgFile(HComment, <<Upd(Upd(BaseD, a[1]), b[1]), d2, Upd(Upd(BaseR, a[2]), b[2])>>)>> :
@@ -296,7 +298,7 @@ FamilyTU(th) ==
 (***************************************************************************)
 (* P: part, direction, destination                                          *)
 (***************************************************************************)
-FamilyP == { <<NoTpl, MsgFile(HComment, <<Row(FALSE, ty, x_c, E, x_a, E, E, zz, x_b509, x_h01, <<G(x_f, pt, x_UCH, E, E, E), G(x_g, E, x_UIN, E, E, E)>>)>>)>> :
+FamilyP(th) == { <<NoTpl, MsgFile(HComment, <<Row(FALSE, ty, x_c, E, x_a, E, E, zz, x_b509, x_h01, <<G(x_f, pt, x_UCH, E, E, E), G(x_g, E, x_UIN, E, E, E)>>)>>)>> :
                ty \in {x_r, x_w, x_u, x_uw}, zz \in {E, x_h08, x_h10, x_hfe}, pt \in {E, x_m, x_s, x_S, x_M, x_X} }
 
 (***************************************************************************)
@@ -304,7 +306,7 @@ FamilyP == { <<NoTpl, MsgFile(HComment, <<Row(FALSE, ty, x_c, E, x_a, E, E, zz, 
 (***************************************************************************)
 HRows == << Row(TRUE, x_r, x_c, x_lv, E, E, E, x_h08, x_b509, x_h0d, <<>>),
             Row(FALSE, x_r, E, E, x_a, E, E, E, E, x_h01, <<Gf, Gg>>),
-            Row(FALSE, x_r3, x_d, x_l2, x_b, x_k, x_h10, x_h09, x_b510, x_h02, <<G(E, x_m, x_UCH, E, E, E)>>) >>
+            Row(FALSE, x_r3, x_d, x_l2, x_b, x_k, x_h10, x_h09, E, x_h02, <<G(E, x_m, x_UCH, E, E, E)>>) >>
 Headers == {HComment, HBlank, HSlashes, HDefault, HUpper, HLevel, HSwap, HNoGroup, HNoPbsb, HNoFieldType, HDupName, HEmptyName}
 (* decoration: lines inserted behind the header (1), between the rows (2, 3), at the end (4) *)
 Decorate(ls, deco) == <<ls[1]>> \o deco[1] \o <<ls[2]>> \o deco[2] \o <<ls[3]>> \o deco[3] \o <<ls[4]>> \o deco[4]
@@ -325,9 +327,11 @@ LayoutLines == {
   <<<<114,44,99,44,97,44,44,44,48,56,44,98,53,48,57,44,48,49>>>>,                    \* a definition as first line
   <<x_hashT, <<114,44,99,44,97,44,44,44,48,56,44,98,53,48,57,44,48,49>>, <<42,114>>, <<114,44,44,98,44,44,44,48,56,44,98,53,48,57,44,48,50>>>> }
       \* "*r" alone resets the defaults of r
-FamilyH ==
+FamilyH(th) ==
   { <<NoTpl, Decorate(MsgFile(h, HRows), d)>> : h \in Headers, d \in Decos }
   \cup { <<NoTpl, Decorate(MsgFileTrim(h, HRows), d)>> : h \in Headers, d \in Decos }
+  \cup { <<NoTpl, Decorate(MsgFile(HComment, HRows), d) \o <<RenderRow(HComment, HRows[2])>>>> : d \in Decos }     \* a repeated row: rejected at the last line
+  \cup { <<NoTpl, Decorate(MsgFile(HComment, HRows), d) \o <<x_hashX, RenderRow(HComment, [HRows[3] EXCEPT !.name = x_a])>>>> : d \in Decos }
   \cup { <<NoTpl, l>> : l \in LayoutLines }
 
 (***************************************************************************)
@@ -357,7 +361,7 @@ FamilyX(th) ==
       dg \in {<<>>, <<G(x_x, E, x_t, E, E, E)>>, <<G(E, E, x_s, E, E, E)>>},
       rg \in {<<>>, <<G(x_f, E, x_t, x_p10, E, E)>>, <<G(E, x_s, x_s, E, E, E), Gg>>} }
 
-Files(th) == FamilyA \cup (IF th THEN FamilyA3 ELSE {}) \cup FamilyO(th) \cup FamilyTT(th) \cup FamilyTU(th) \cup FamilyP \cup FamilyH \cup FamilyK(th) \cup FamilyX(th)
-FamilySizes(th) == <<Cardinality(FamilyA \cup (IF th THEN FamilyA3 ELSE {})), Cardinality(FamilyO(th)), Cardinality(FamilyTT(th)), Cardinality(FamilyTU(th)), Cardinality(FamilyP),
-                     Cardinality(FamilyH), Cardinality(FamilyK(th)), Cardinality(FamilyX(th))>>
+Files(th) == FamilyA(th) \cup (IF th THEN FamilyA3(th) ELSE {}) \cup FamilyO(th) \cup FamilyTT(th) \cup FamilyTU(th) \cup FamilyP(th) \cup FamilyH(th) \cup FamilyK(th) \cup FamilyX(th)
+FamilySizes(th) == <<Cardinality(FamilyA(th) \cup (IF th THEN FamilyA3(th) ELSE {})), Cardinality(FamilyO(th)), Cardinality(FamilyTT(th)), Cardinality(FamilyTU(th)), Cardinality(FamilyP(th)),
+                     Cardinality(FamilyH(th)), Cardinality(FamilyK(th)), Cardinality(FamilyX(th))>>
 =============================================================================
